@@ -738,16 +738,24 @@ func GenRoundsMaxVal(rnd *rand.Rand) RHist {
 // GenRoundsBulk draws a large-scope multi-round history: rounds whose change set holds several hundred nodes (one
 // SaveChanges = one multi-put of that size), directly on the block trie and through a merged transaction, with
 // dead-node records, a prune and a crash inside a save.
-func GenRoundsBulk(rnd *rand.Rand) RHist {
+func GenRoundsBulk(rnd *rand.Rand, big bool) RHist {
 	h := RHist{Persist: true, Quiet: true}
 	seed := int64(1 + rnd.Intn(1000000))
 	ver := int64(1)
 	nrounds := 3 + rnd.Intn(2)
+	if big {
+		// eight heavy rounds and ONE prune at the end: more than a thousand dead nodes go in one pruning (the persistent
+		// store deletes them in several batches)
+		nrounds = 8
+	}
 	for rd := 0; rd < nrounds; rd++ {
 		h.Ops = append(h.Ops, ROp{Op: "round", Ver: ver})
 		n := 150 + rnd.Intn(250)
 		if rd > 0 {
 			n = 40 + rnd.Intn(200)
+		}
+		if big {
+			n = 400 + rnd.Intn(150)
 		}
 		if rnd.Intn(2) == 0 {
 			h.Ops = append(h.Ops, ROp{Op: "bulk", T: 0, K: n, Ver: seed})
@@ -760,8 +768,11 @@ func GenRoundsBulk(rnd *rand.Rand) RHist {
 				ROp{Op: "round", Ver: ver}, ROp{Op: "bulk", T: 0, K: n, Ver: seed - 1})
 		}
 		h.Ops = append(h.Ops, ROp{Op: "save"})
-		if rd >= 1 && rnd.Intn(2) == 0 {
+		if !big && rd >= 1 && rnd.Intn(2) == 0 {
 			h.Ops = append(h.Ops, ROp{Op: "prune", Ver: ver})
+		}
+		if big && rd == nrounds-1 {
+			h.Ops = append(h.Ops, ROp{Op: "crash", K: 1}, ROp{Op: "prune", Ver: ver}, ROp{Op: "prune", Ver: ver})
 		}
 		ver++
 	}
